@@ -20,7 +20,8 @@ fn name(bytes: &[u8]) -> String {
 }
 
 impl Program {
-    /// Render the tree below `root` as an S-expression. Unknown / dangling ids print as `?`.
+    /// Render the tree below `root` as an S-expression. Unknown / dangling ids print as `?`;
+    /// subtrees nested deeper than 400 levels print as `...`.
     pub fn to_sexp(&self) -> String {
         let mut out = String::new();
         self.sexp(self.root, &mut out, 0);
@@ -42,7 +43,7 @@ impl Program {
     }
 
     fn sexp(&self, id: usize, out: &mut String, depth: usize) {
-        if depth > 2000 {
+        if depth > 400 {
             out.push_str("...");
             return;
         }
